@@ -227,12 +227,15 @@ Record cstate := mkCs {
   helloErr  : option err;
   ext       : option (list bytes);   (* None = nil map (after HELO) *)
   sc_tls    : bool;                  (* smtp.Client.tls *)
-  connected : bool                   (* smtp.Client.isConnected *)
+  connected : bool;                  (* smtp.Client.isConnected *)
+  pipe_out  : nat;                   (* textproto.Pipeline of c.Text: ids handed out whose EndResponse has not happened *)
+  endresp   : bool                   (* Client.cmd calls EndResponse on every path after StartResponse (T1) *)
 }.
 
 Record world := mkW { w_srv : srv; w_conn : conn; w_cs : cstate; w_trace : list event }.
 
-Definition cs0 : cstate := mkCs false None None false false.
+Definition cs0f (er : bool) : cstate := mkCs false None None false false O er.
+Definition cs0 : cstate := cs0f Gen.smtp_cmd_endresponse_always.
 Definition conn0 : conn := mkConn false false false false false.
 
 Definition ev (e : event) (w : world) : world := mkW (w_srv w) (w_conn w) (w_cs w) (e :: w_trace w).
@@ -242,6 +245,7 @@ Definition with_cs (w : world) (c : cstate) : world := mkW (w_srv w) (w_conn w) 
 
 Inductive prim : Type -> Type :=
 | PConnect (ssl : bool) : prim (option err)    (* the dial function (implicit TLS: TCP + handshake under the context deadline) *)
+| PCmd (expect : N) (v : verb) : prim (res reply)   (* Client.cmd: Text.Cmd (Next, write), StartResponse, ReadResponse, EndResponse *)
 | PWrite (v : verb) : prim bool                (* write one line; false = the write failed *)
 | PRead : prim rres                            (* read one reply *)
 | PHandshake : prim (option err)               (* client side of the TLS handshake after STARTTLS *)
@@ -260,6 +264,46 @@ Definition do_close (w : world) : world :=
   let c := w_conn w in
   if ctls c && negb (copen c) then w
   else ev EClose (with_conn w (mkConn (opened c) false (ctls c) (armed c) (hung c))).
+
+(* textproto.parseCodeLine: the expected code is a prefix class (1 digit, 2 digits) or exact; 0 = anything *)
+Definition match_code (expect code : N) : bool :=
+  if expect =? 0 then true
+  else if expect <? 10 then code / 100 =? expect
+  else if expect <? 100 then code / 10 =? expect
+  else code =? expect.
+
+Definition classify (expect : N) (r : rres) : res reply :=
+  match r with
+  | RReply rp =>
+      if (r_code rp <? 100) || (999 <? r_code rp) then Err EProto
+      else if match_code expect (r_code rp) then Ok rp else Err (ECode (r_code rp))
+  | REof => Err EEof
+  | RTimeout => Err ETimeout
+  | RClosed => Err EClosed
+  | RHang => Err EHang
+  end.
+
+Definition do_write (v : verb) (w : world) : bool * world :=
+  if negb (copen (w_conn w)) then (false, w)
+  else if negb (sopen (w_srv w)) then (false, w)
+  else (true, with_srv (ev (ECmd v (negb (ctls (w_conn w)))) w) (srv_line (w_srv w) v)).
+
+Definition do_read (w : world) : rres * world :=
+  let c := w_conn w in
+  let s := w_srv w in
+  if negb (copen c) then (RClosed, w)
+  else match queue s with
+  | r :: q => (RReply r, ev (ERead (armed c) (ctls c) KData) (with_srv w (set_queue s q)))
+  | [] =>
+      if negb (sopen s) then (REof, ev (ERead (armed c) (ctls c) KEof) w)
+      else if armed c then (RTimeout, ev (ERead true (ctls c) KTimeout) w)
+      else (RHang, ev (ERead false (ctls c) KHang) (with_conn w (mkConn (opened c) (copen c) (ctls c) false true)))
+  end.
+
+Definition set_pipe (w : world) (n : nat) : world :=
+  let k := w_cs w in with_cs w (mkCs (didHello k) (helloErr k) (ext k) (sc_tls k) (connected k) n (endresp k)).
+
+Definition is_reply (r : rres) : bool := match r with RReply _ => true | _ => false end.
 
 Definition run_prim {B : Type} (p : prim B) (w : world) : B * world :=
   match p in prim B return B * world with
@@ -283,21 +327,23 @@ Definition run_prim {B : Type} (p : prim B) (w : world) : B * world :=
         let (d, s1) := pop_decision s in
         (None, with_srv (with_conn w (mkConn true true false (armed c) (hung c))) (apply_decision s1 VGreeting d))
       end
-  | PWrite v =>
-      if negb (copen (w_conn w)) then (false, w)
-      else if negb (sopen (w_srv w)) then (false, w)
-      else (true, with_srv (ev (ECmd v (negb (ctls (w_conn w)))) w) (srv_line (w_srv w) v))
-  | PRead =>
-      let c := w_conn w in
-      let s := w_srv w in
-      if negb (copen c) then (RClosed, w)
-      else match queue s with
-      | r :: q => (RReply r, ev (ERead (armed c) (ctls c) KData) (with_srv w (set_queue s q)))
-      | [] =>
-          if negb (sopen s) then (REof, ev (ERead (armed c) (ctls c) KEof) w)
-          else if armed c then (RTimeout, ev (ERead true (ctls c) KTimeout) w)
-          else (RHang, ev (ERead false (ctls c) KHang) (with_conn w (mkConn (opened c) (copen c) (ctls c) false true)))
+  | PCmd expect v =>
+      (* Text.Cmd takes the next pipeline id and writes; a failed write returns before StartResponse: that id's
+         response is never ended.  StartResponse(id) waits -- without any deadline -- until every earlier id's
+         EndResponse has happened.  EndResponse follows the read on every path iff [endresp] (otherwise not when the
+         read failed). *)
+      let (ok, w1) := do_write v w in
+      if negb ok then (Err EWrite, set_pipe w1 (S (pipe_out (w_cs w1))))
+      else match pipe_out (w_cs w1) with
+      | S _ =>
+          let c := w_conn w1 in
+          (Err EHang, with_conn w1 (mkConn (opened c) (copen c) (ctls c) (armed c) true))
+      | O =>
+          let (r, w2) := do_read w1 in
+          (classify expect r, if endresp (w_cs w2) || is_reply r then w2 else set_pipe w2 1%nat)
       end
+  | PWrite v => do_write v w
+  | PRead => do_read w
   | PHandshake =>
       let c := w_conn w in
       let s := w_srv w in
@@ -325,12 +371,13 @@ Definition run_prim {B : Type} (p : prim B) (w : world) : B * world :=
   | PClientClose =>
       let w1 := do_close w in
       let k := w_cs w1 in
-      (tt, with_cs w1 (mkCs (didHello k) (helloErr k) (ext k) (sc_tls k) false))
+      (tt, with_cs w1 (mkCs (didHello k) (helloErr k) (ext k) (sc_tls k) false (pipe_out k) (endresp k)))
   | PGetCs => (w_cs w, w)
-  | PSetHello e => let k := w_cs w in (tt, with_cs w (mkCs true e (ext k) (sc_tls k) (connected k)))
-  | PSetExt x => let k := w_cs w in (tt, with_cs w (mkCs (didHello k) (helloErr k) x (sc_tls k) (connected k)))
-  | PSetScTls => let k := w_cs w in (tt, with_cs w (mkCs (didHello k) (helloErr k) (ext k) true (connected k)))
-  | PSetConnected => let k := w_cs w in (tt, with_cs w (mkCs (didHello k) (helloErr k) (ext k) (sc_tls k) true))
+  | PSetHello e => let k := w_cs w in (tt, with_cs w (mkCs true e (ext k) (sc_tls k) (connected k) (pipe_out k) (endresp k)))
+  | PSetExt x => let k := w_cs w in (tt, with_cs w (mkCs (didHello k) (helloErr k) x (sc_tls k) (connected k) (pipe_out k) (endresp k)))
+  | PSetScTls =>   (* StartTLS: c.Text = textproto.NewConn(tls conn): a fresh pipeline *)
+      let k := w_cs w in (tt, with_cs w (mkCs (didHello k) (helloErr k) (ext k) true (connected k) O (endresp k)))
+  | PSetConnected => let k := w_cs w in (tt, with_cs w (mkCs (didHello k) (helloErr k) (ext k) (sc_tls k) true (pipe_out k) (endresp k)))
   end.
 
 (* programs *)
@@ -360,28 +407,8 @@ Notation "m ;;; k" := (bind m (fun _ => k)) (at level 61, right associativity).
 (* ------------------------------------------------------------------------------------------------ *)
 (* smtp.Client *)
 
-(* textproto.parseCodeLine: the expected code is a prefix class (1 digit, 2 digits) or exact; 0 = anything *)
-Definition match_code (expect code : N) : bool :=
-  if expect =? 0 then true
-  else if expect <? 10 then code / 100 =? expect
-  else if expect <? 100 then code / 10 =? expect
-  else code =? expect.
-
-Definition classify (expect : N) (r : rres) : res reply :=
-  match r with
-  | RReply rp =>
-      if (r_code rp <? 100) || (999 <? r_code rp) then Err EProto
-      else if match_code expect (r_code rp) then Ok rp else Err (ECode (r_code rp))
-  | REof => Err EEof
-  | RTimeout => Err ETimeout
-  | RClosed => Err EClosed
-  | RHang => Err EHang
-  end.
-
-(* Client.cmd: write the line, then read the reply *)
-Definition cmd (expect : N) (v : verb) : prog (res reply) :=
-  ok <- prim1 (PWrite v) ;;
-  if ok then (r <- prim1 PRead ;; Ret (classify expect r)) else Ret (Err EWrite).
+(* Client.cmd *)
+Definition cmd (expect : N) (v : verb) : prog (res reply) := prim1 (PCmd expect v).
 
 Definition ehlo : prog (res unit) :=
   r <- cmd 250 VEhlo ;;
@@ -861,6 +888,19 @@ Definition quick_send (fuel : nat) (with_auth : bool) (host : bytes) (fxc fxq fx
            fxc fxq fxa fxs false)
     [nrcpt].
 
+(* the same with a second Send on the persistent connection before Reset *)
+Definition session2 (fuel : nat) (cfg : config) (msgs : list nat) : prog (list (res unit)) :=
+  d <- dial fuel cfg ;;
+  match d with
+  | Err e => Ret [Err e]
+  | Ok _ =>
+      s1 <- send_batch cfg msgs ;;
+      s2 <- send_batch cfg msgs ;;
+      r <- reset_client cfg ;;
+      c <- close_client cfg ;;
+      Ret [Ok tt; s1; s2; r; c]
+  end.
+
 (* ------------------------------------------------------------------------------------------------ *)
 (* running against a fresh world *)
 
@@ -879,6 +919,7 @@ Definition src_fx_quit : bool := Gen.close_on_quit_failure.
 Definition src_fx_arm : bool :=
   Gen.dial_arms_before_greeting && Gen.checkconn_deadline_before_noop && Gen.close_updates_deadline.
 Definition src_fx_send : bool := Gen.send_aborts_on_failed_rset.
+Definition src_cmd_endresp : bool := Gen.smtp_cmd_endresponse_always.
 (* no other deadline call exists (nothing clears or shortens the deadline) and each one is now + the timeout *)
 Definition src_deadline_sites_ok : bool := (Gen.deadline_call_sites =? 2) && Gen.deadline_args_are_timeout.
 
@@ -920,7 +961,7 @@ Definition unarmed_read (e : event) : bool :=
 (* ------------------------------------------------------------------------------------------------ *)
 (* entry points and projections for the correspondence check (extracted) *)
 
-Inductive kind := KDial | KDas | KSess.
+Inductive kind := KDial | KDas | KSess | KSess2.
 
 Definition run_case (k : kind) (cfg : config) (s : srv) (msgs : list nat) : list (res unit) * option phase * world :=
   let f := fuel_for s in
@@ -928,6 +969,7 @@ Definition run_case (k : kind) (cfg : config) (s : srv) (msgs : list nat) : list
   | KDial => let (r, w) := run (dial f cfg) (world0 s) in ([r], None, w)
   | KDas => let (rp, w) := run (dial_and_send f cfg msgs) (world0 s) in ([fst rp], snd rp, w)
   | KSess => let (l, w) := run (session f cfg msgs) (world0 s) in (l, None, w)
+  | KSess2 => let (l, w) := run (session2 f cfg msgs) (world0 s) in (l, None, w)
   end.
 
 (* the configuration with the repairs as they are on the working tree *)
